@@ -181,6 +181,18 @@ func (r *run) Step(ev explore.Event) []explore.Violation {
 	default:
 		res = r.s.C.Cmd(cmd)
 	}
+	if invalidBefore && !r.s.C.Closed {
+		// the server ends a session whose state became invalid with BYE and closes: wait for the close so that the
+		// outcome does not depend on timing
+		for {
+			if _, err := r.s.C.ReadResp(); err != nil {
+				break
+			}
+		}
+		if r.s.C.Closed {
+			res.Err = imapc.ErrClosed
+		}
+	}
 	if res.Err != nil {
 		if r.s.C.Closed {
 			r.s.Dead = true
@@ -211,7 +223,7 @@ func (r *run) Step(ev explore.Event) []explore.Violation {
 		allowed = st != "notauth"
 	}
 	refusedReply := res.Status == "NO" || res.Status == "BAD"
-	if !allowed && !r.s.Dead {
+	if !allowed && !r.s.Dead && res.Err == nil {
 		if !refusedReply {
 			out = append(out, r.viol("gating", verb+"/"+st, fmt.Sprintf("%s needs state %q but was answered %q in state %s", cmd, n, res.Tagged.Text, st)))
 		}
